@@ -96,6 +96,7 @@ def build_datasets(case, tmp, with_rid=True, label_enc=None, id_prefix=""):
             id_prefix=id_prefix,
             twin=case.get("twin", False),
             flag_feature=case.get("flag", False),
+            targets_first=case.get("targets_first", False),
         )
         path = tmp / f"{id_prefix}file{fi}{ext}"
         datagen.write_table(df, path, row_group=case.get("row_group"))
